@@ -293,9 +293,15 @@ impl Listener {
                         errorfds.as_mut_ptr(),
                         &mut timeout,
                     );
-                    if ret != EINTR && ret != EAGAIN {
-                        break;
+                    // select() reports an interruption as -1 with errno set; wait on for what is
+                    // left of the timeout instead of falling into a blocking accept()
+                    if ret == -1 {
+                        let errno = ::std::io::Error::last_os_error().raw_os_error();
+                        if errno == Some(EINTR) || errno == Some(EAGAIN) {
+                            continue;
+                        }
                     }
+                    break;
                 }
                 if !FD_ISSET(fd, readfs.as_mut_ptr()) {
                     return Err(context!(ErrorKind::Timeout));
